@@ -50,6 +50,8 @@ def _uri(c):
                 parts.append(c['address'])
     if parts:
         s += '/' + '/'.join(parts)
+    if c.get('slash'):
+        s += '/'        # a trailing slash after the last field given (the parser strips it: 'radio://0/', 'radio://0/80/2M/')
     if c['rate_limit'] is not None:
         s += '?rate_limit=%d' % c['rate_limit']
     return s
@@ -71,6 +73,7 @@ def radio_uri(draw, int_dongle_only=False):
         c['address'] = draw(st.sampled_from([digits, digits.upper(), digits.lower(), 'E7E7E7E7E7', 'e7e7e7e701', '1', '0']))
     if draw(st.sampled_from([False, False, True])):
         c['rate_limit'] = draw(st.integers(1, 2000))
+    c['slash'] = draw(st.sampled_from([False, False, False, True]))
     return c
 
 
@@ -83,7 +86,7 @@ def connect_case(draw):
 
 def _nontrivial(c):
     return c['channel'] is None or c['rate'] is None or c['address'] is None or len(c['address']) < 10 or \
-        c['address'] != c['address'].upper() or not isinstance(c['dongle'], int) or c['rate_limit'] is not None
+        c['address'] != c['address'].upper() or not isinstance(c['dongle'], int) or c['rate_limit'] is not None or bool(c.get('slash'))
 
 
 def _dongles():
